@@ -366,7 +366,7 @@ PROPS = {
         level="proof",
         needs_bita=True,
         required_theorems=["tryInit_total", "accepted_archive_is_safe", "scan_is_bounded", "accepted_iff_valid", "accepted_archive_scan_is_bounded", "server_bytes_safe", "remote_open_total", "local_open_total", "local_header_read_allocation_bounded", "remote_header_read_buffering_bounded", "decoded_chunk_follows_declared_sizes"],
-        suites=dict(quick=[("l1", "fmt"), ("py", "c15_cli")], thorough=[("l1", "fmt"), ("py", "c15_cli")]),
+        suites=dict(quick=[("l1", "fmt"), ("py", "c15_cli"), ("l1", "c08-http")], thorough=[("l1", "fmt"), ("py", "c15_cli"), ("l1", "c08-http")]),
         rule="library: random/wild dictionaries under header::build, wire-level crafted dictionaries and declared-size/offset lies under a "
              "recomputed checksum, bit flips, truncations, random bytes; CLI: 22 field mutations x 4 commands + 13 server scripts; "
              "outcome classes compared with the model's tryInit/banner",
